@@ -208,9 +208,59 @@ def eval_modifiers(st):
                                      {'function': 'def f' + space.show(shape), 'modifier': '%s(%r)' % (nm, sel), 'problems': bad}, {})
 
 
+def nary_operands(tier):
+    u = space.universe(1, 'abc')
+    first = [x for x in u if space.std_stars(x)]
+    return (first, u, first) if tier == 'quick' else (u, u, u)
+
+
+def eval_nary(shapes, st):
+    """One flat n-ary call: embed(s0, s1, s2[, s3]) shifts the callables of s_i by i, merge(s0, s1, s2) by nothing; a callable
+    reached twice keeps its smallest depth; named parameters keep the lists of the operands that carry them."""
+    sigs = [alg.sig_of(x) for x in shapes]
+    for op in ('embed', 'merge'):
+        st.inc('states')
+        try:
+            res = getattr(S, op)(*sigs)
+        except ValueError:
+            continue
+        st.inc('transitions')
+        want = {}
+        for i, sg in enumerate(sigs):
+            for f, d in sg.sources.get('+depths', {}).items():
+                v = d + (i if op == 'embed' else 0)
+                if id(f) not in want or v < want[id(f)][1]:
+                    want[id(f)] = (f, v)
+        got = dict((id(f), (f, d)) for f, d in res.sources.get('+depths', {}).items())
+        case = {'op': 'nary', 'which': op, 'sigs': [space.to_json(x) for x in shapes]}
+        base = {'operation': '%s(%s)' % (op, ', '.join(space.show(x) for x in shapes)), 'result': alg.sig_str(res)}
+        if dict((k, v[1]) for k, v in want.items()) != dict((k, v[1]) for k, v in got.items()):
+            st.violation('depths-rule', case,
+                         dict(base, expected_depths=sorted((label(f), v) for f, v in want.values()),
+                              depths=sorted((label(f), v) for f, v in got.values())), {'op': op + '-nary'})
+            continue
+        for kind, detail in problems(res):
+            if kind == 'sources-duplicate':
+                continue        # the concatenation clause is decided (and recorded) by part A on binary steps
+            st.violation(kind, case, dict(base, **detail), {'origin': 'nary'})
+        st.seen('nontrivial', (op, shape_of(res), tuple(sorted(v[1] for v in got.values()))))
+
+
 def shard(tier, sh):
     name, i0, i1 = sh
     st = runner.Stats()
+    if name == 'nary':
+        import itertools
+        first, second, third = nary_operands(tier)
+        for a in first[i0:i1]:
+            for b in second:
+                for c in third:
+                    eval_nary((a, b, c), st)
+        for a in first[i0:i1]:
+            if len(a) == 1 and a[0][1] == VK:
+                for b, c, d in itertools.product([x for x in first if any(p[1] in (VA, VK) for p in x)], repeat=3):
+                    eval_nary((a, b, c, d), st)
+        return st
     if name == 'chains+modifiers':
         eval_chains(st)
         eval_modifiers(st)
@@ -229,6 +279,8 @@ def shard(tier, sh):
 
 def run_part(tier, seed):
     shards = [('chains+modifiers', 0, 0)]
+    nfirst = len(nary_operands(tier)[0])
+    shards += [('nary', i, min(nfirst, i + 4)) for i in range(0, nfirst, 4)]
     total = 0
     for name, plist in slices.all_slices('quick'):
         total += len(plist)
@@ -251,6 +303,8 @@ def replay(art):
             eval_prog(loaded[0], st)
         finally:
             batch.close()
+    elif c.get('op') == 'nary':
+        eval_nary(tuple(space.from_json(x) for x in c['sigs']), st)
     elif c.get('op') == 'chain':
         eval_chains(st)
     else:
